@@ -132,3 +132,65 @@ macro_rules! shared_leaf_access {
         }
     }};
 }
+
+/// bound probes on a pair (collection type, what is reached through it)
+pub struct Bound<C, T>(pub PhantomData<(C, T)>);
+pub fn bound<C, T>() -> Bound<C, T> {
+    Bound(PhantomData)
+}
+pub trait BoundNo<C, T> {
+    fn as_mut_of<'x>(&self, _: &'x mut C) -> Option<&'x mut T> {
+        None
+    }
+    fn extend_with(&self, _: &mut C, x: T) -> Result<(), T> {
+        Err(x)
+    }
+    fn first_mut_of<'x>(&self, _: &'x mut C) -> Option<Option<&'x mut T>> {
+        None
+    }
+    fn implements_from(&self) -> bool {
+        false
+    }
+    fn implements_from_iter(&self) -> bool {
+        false
+    }
+    fn implements_as_ref(&self) -> bool {
+        false
+    }
+}
+impl<C, T> BoundNo<C, T> for Bound<C, T> {}
+impl<C: AsMut<T>, T> Bound<C, T> {
+    pub fn as_mut_of<'x>(&self, c: &'x mut C) -> Option<&'x mut T> {
+        Some(c.as_mut())
+    }
+}
+impl<C: Extend<T>, T> Bound<C, T> {
+    pub fn extend_with(&self, c: &mut C, x: T) -> Result<(), T> {
+        c.extend(std::iter::once(x));
+        Ok(())
+    }
+}
+impl<C, T> Bound<C, T>
+where
+    for<'x> &'x mut C: IntoIterator<Item = &'x mut T>,
+{
+    /// Some(first element) if `&mut C` can be iterated
+    pub fn first_mut_of<'x>(&self, c: &'x mut C) -> Option<Option<&'x mut T>> {
+        Some(c.into_iter().next())
+    }
+}
+impl<C: From<T>, T> Bound<C, T> {
+    pub fn implements_from(&self) -> bool {
+        true
+    }
+}
+impl<C: FromIterator<T>, T> Bound<C, T> {
+    pub fn implements_from_iter(&self) -> bool {
+        true
+    }
+}
+impl<C: AsRef<T>, T> Bound<C, T> {
+    pub fn implements_as_ref(&self) -> bool {
+        true
+    }
+}
